@@ -62,13 +62,16 @@ impl Prop for C19 {
     fn cases(&self, tier: Tier, seed: u64) -> Vec<Value> {
         let mut out = vec![];
         let sizes: Vec<usize> = match tier {
-            Tier::Quick => (0..=9).chain([17, 32]).collect(),
-            Tier::Thorough => (0..=64).collect(),
+            Tier::Quick => (0..=9).chain([17, 32, 300]).collect(),
+            Tier::Thorough => (0..=64).chain([128, 300, 1000]).collect(),
         };
         for suite in REAL_SUITES {
             for &size in &sizes {
                 for layout in 0..3 {
                     if suite == "ed448" && size > tier.pick(9, 32) {
+                        continue;
+                    }
+                    if size > 64 && layout != 1 {
                         continue;
                     }
                     out.push(serde_json::to_value(Case::Size { suite: suite.to_string(), size, layout, seed: format!("s{seed}") }).unwrap());
@@ -210,6 +213,9 @@ fn run_real<C: Suite>(c: &Case) -> Outcome {
                 judge::<C>(&mut o, &tag, &format!("{ctx} all-valid reversed"), &r, "valid-rev");
             }
             for pos in 0..*size {
+                if *size > 64 && !(pos == 0 || pos == 127 || pos == 128 || pos == 255 || pos == 256 || pos + 1 == *size) {
+                    continue;
+                }
                 for bad in BADS {
                     let mut e = entries.clone();
                     let other = (pos + 1) % *size;
